@@ -6,6 +6,9 @@ CHECKS = {
  "C01": dict(level="model_checking", technique="bounded-exhaustive conformance exploration: all expression ASTs <= k nodes x all documents <= n nodes, real evaluator vs reference abstract machine",
    text="Every core-fragment AST up to the size bound is evaluated by the real parser+evaluator on every JSON-model document up to the node bound and compared (ordered results, error/no error, document state afterwards) with a reference abstract machine written from the documentation; the verdict is a coverage statement over that finite product, which is exactly the programs x inputs quantifier the golden tests sample.",
    note="Trusted: the reference machine mc/internal/refsem (points the documentation leaves open are Undef, counted, not compared); fully parenthesised printing (precedence is C09); alphabets Sigma/keys {a,b}.", design="4/C01, 3, appendix A"),
+ "C02": dict(level="model_checking", technique="bounded-exhaustive conformance exploration: all documents x path alphabet x values/update functions/compound operands, real assignment vs reference machine, plus update laws evaluated on the implementation alone",
+   text="For every document of U(n), every path of a 22-path alphabet (keys, positive/negative indices, splats, unions, multi-match selections, paths that must be created including padding) and every value, update function and compound operand, the real evaluator's resulting document is compared with the reference machine's (put, frame, creation and padding are all decided by that one whole-document comparison), and put-get, put-put and get-put are additionally evaluated on the implementation's own outputs.",
+   note="Trusted: refsem evUpdate; `p = p` is required to be the identity only for single-match paths that exist; right-hand sides that read a node overlapping the target are skipped (counted).", design="4/C02"),
  "C03": dict(level="model_checking", technique="explicit-state BFS over derivation pipelines on the real evaluator; in every state all selections deleted by the real del vs reference deletion-by-identity on the state's value",
    text="Breadth-first search over pipelines of derivation operators (sort, reverse, slices, map, filter, collect, +, pick, omit, with_entries, assignments of derived values, earlier deletes) replayed on the real evaluator; states are de-duplicated by the canonical node-graph dump; in every container state each of 18 selections (single paths, +/- indices, unions in both orders, duplicates, splat and recursive descent with predicates, two-digit indices) is deleted by the real del and compared with deletion by node identity, in the reference machine, of the state's value decoded afresh.",
    note="Trusted: refsem for selection evaluation and deletion; derivation operators are only used to reach states, they are judged by C01/C15/C16.", design="4/C03"),
